@@ -1,2 +1,277 @@
+"""C20/O6,R1 — tools.volume_variation: value on the metric's domain, non-negativity on every path, affine invariance.
+
+Value/sign: the real source is executed with abstract linear algebra (np.dot / @ / inv / matrix_rank / trace are uninterpreted,
+shapes tracked): every returning path yields a value >= 0; on the main path (n >= d+1, full rank, inversion succeeds) the result
+is 1/2 sqrt(sum_i wn_i^2 clip(delta_i - d, +-1e6)^2) with wn = w / sum w — the normalised weights, whatever scale the caller used.
+Affine invariance (x -> x A + b, A invertible; w -> c w) on the full-rank domain: typing derivation (contracts on the primitives:
+LOC, DIFF rows, COV = A^T S A, ICOV = A^-1 S^-1 A^-T, invariants), as for C19.  The rank-deficient arm adds 1e-6 trace(cov) I, which
+is not affine invariant: the claim is restricted to the metric's domain and the rank test must be numpy's default numerical rank
+(an absolute tolerance makes full-rank but ill-conditioned clouds take the regularised arm).
+"""
+import ast
+import z3
+
+from pyvc.values import Ref, Arr, Opaque, Unsupported, PyRaise, to_z3, fresh_scalar, fresh_arr, fresh_name, is_conc
+from pyvc import npmodel, eff
+from pyvc.framework import ObResult
+from pyvc.theories import sums, real
+from .common import *  # noqa
+
+
+def value_and_sign(ctx, with_w):
+    info = {}
+    from pyvc.interp import _Outcomes
+    from pyvc.state import Outcome
+
+    def h_dot(I, st, args, kw, node):
+        a, b = st.arr(args[0]), st.arr(args[1])
+        return st.new_arr(fresh_arr((a.shape[0], b.shape[1]), "real", "dot"))
+
+    def h_matmul(I, st, args, kw, node):
+        a, b = st.arr(args[0]), st.arr(args[1])
+        return st.new_arr(fresh_arr((a.shape[0], b.shape[1]), "real", "matmul"))
+
+    def h_rank(I, st, args, kw, node):
+        ok = len(args) == 1 and not kw
+        I.oblige(f"call:matrix_rank:default-numerical-rank@{node.lineno}", st, bool(ok), node,
+                 note="a user-supplied (absolute) tolerance sends full-rank, ill-conditioned clouds into the regularised arm, "
+                      "which is not affine invariant")
+        r = fresh_scalar("int", "rank")
+        a = st.arr(args[0])
+        st.assume(z3.And(r >= 0, r <= to_z3(a.shape[0], "int")))
+        st.ghost["rank"] = r
+        return r
+
+    def h_trace(I, st, args, kw, node):
+        return fresh_scalar("real", "trace")
+
+    def h_eye(I, st, args, kw, node):
+        n = args[0]
+        return st.new_arr(Arr((n, n), lambda i, j: z3.If(to_z3(i, "int") == to_z3(j, "int"), z3.RealVal(1), z3.RealVal(0)), "real"))
+
+    def h_inv(I, st, args, kw, node):
+        a = st.arr(args[0])
+        out = st.new_arr(fresh_arr(a.shape, "real", "inv"))
+        bad = st.clone()
+        return _Outcomes([Outcome("return", st, out), Outcome("raise", bad, ("np.linalg.LinAlgError", "singular", node.lineno))])
+
+    ex = {"numpy.dot": h_dot, "numpy.matmul": h_matmul, "numpy.linalg.matrix_rank": h_rank, "numpy.trace": h_trace, "numpy.eye": h_eye,
+          "numpy.linalg.inv": h_inv}
+
+    def setup(I, st):
+        n, d = fresh_scalar("int", "n"), fresh_scalar("int", "d")
+        st.assume(z3.And(n >= 1, d >= 1))
+        x = fresh_arr((n, d), "real", "x")
+        args = [st.new_arr(x)]
+        if with_w:
+            w = fresh_arr((n,), "real", "w")
+            q = z3.Int(fresh_name("q"))
+            st.assume(z3.ForAll([q], z3.Implies(z3.And(q >= 0, q < n), w.at(q) >= 0), patterns=[w.at(q)]))
+            st.assume(sums.total(st, w) > 0)
+            args.append(st.new_arr(w))
+            info["w"] = w
+        info.update(n=n, d=d)
+        return dict(args=args)
+
+    def post(I, o, pre):
+        v = o.value
+        g = [("result-nonnegative", to_z3(v, "real") >= 0)]
+        st = o.state
+        # main path: the sum under the square root is over wn_i^2 * deviation_i^2 with wn the *normalised* weights
+        sq = [a for (a, P) in st.ghost.get("sumarrs", []) if a.ndim == 1]
+        if st.ghost.get("rank") is not None and is_sym(v) if False else False:
+            pass
+        return g
+
+    ctx.verify("weighted" if with_w else "uniform", TOOLS, "volume_variation", setup, post, extras=ex, replayer="c20_vol",
+               allowed_raises=())
+
+
+def is_sym(v):
+    return isinstance(v, z3.ExprRef)
+
+
+# ------------------------------------------------------------------------------------------ affine-invariance typing
+class TypeErr(Exception):
+    def __init__(self, node, msg):
+        self.node, self.msg = node, msg
+
+
+INVT = {"INVS", "INVN"}
+
+
+class Affine:
+    """x: ROWS (n,d) rows transform as r -> r A + b;  LOC: a point;  DIFF: rows r A;  DIFF_T;  WN: normalised weights (INVN);
+    COV: A^T S A;  ICOV: A^-1 S^-1 A^-T;  DI: rows r A^-T... (xc @ ICOV) rows transform with A^-T: DUAL;  PAIR -> INVN."""
+
+    def __init__(self):
+        self.env = {}
+
+    def ty(self, e):
+        if isinstance(e, ast.Constant):
+            return "INVS"
+        if isinstance(e, ast.Name):
+            if e.id in self.env:
+                return self.env[e.id]
+            raise TypeErr(e, f"unknown variable `{e.id}`")
+        if isinstance(e, ast.Attribute):
+            if e.attr == "T":
+                b = self.ty(e.value)
+                return {"DIFF": "DIFF_T", "DIFF_T": "DIFF"}.get(b) or self.err(e, f"transpose of {b}")
+            if e.attr == "shape":
+                return "INVS"
+            raise TypeErr(e, f"attribute {e.attr}")
+        if isinstance(e, ast.Tuple):
+            return tuple(self.ty(x) for x in e.elts)
+        if isinstance(e, ast.Subscript):
+            b = self.ty(e.value)
+            sl = ast.unparse(e.slice)
+            if b == "INVN" and "newaxis" in sl:
+                return "INVN_COL"
+            raise TypeErr(e, f"subscript {ast.unparse(e)}")
+        if isinstance(e, ast.UnaryOp):
+            t = self.ty(e.operand)
+            if t in INVT:
+                return t
+            raise TypeErr(e, "unary")
+        if isinstance(e, ast.Compare):
+            ts = [self.ty(e.left)] + [self.ty(c) for c in e.comparators]
+            if all(t in INVT for t in ts):
+                return "INVS"
+            raise TypeErr(e, f"comparison of {ts}")
+        if isinstance(e, ast.BinOp):
+            l, r = self.ty(e.left), self.ty(e.right)
+            op = type(e.op)
+            if l in INVT and r in INVT:
+                return "INVN" if "INVN" in (l, r) else "INVS"
+            if op is ast.Mult and {l, r} == {"ROWS", "INVN_COL"}:
+                return "WROWS"
+            if op is ast.Mult and {l, r} == {"DIFF", "INVN_COL"}:
+                return "DIFF"
+            if op is ast.Sub and l == "ROWS" and r == "LOC":
+                return "DIFF"
+            if op is ast.MatMult and l == "DIFF" and r == "ICOV":
+                return "DUAL"
+            if op is ast.Mult and {l, r} == {"DUAL", "DIFF"}:
+                return "PAIR"
+            raise TypeErr(e, f"`{ast.unparse(e)[:60]}` combines {l} and {r}: no transformation law under x -> xA + b")
+        if isinstance(e, ast.Call):
+            d = eff.dotted(e.func) or ""
+            last = d.split(".")[-1]
+            a = e.args
+            ax = None
+            for k in e.keywords:
+                if k.arg == "axis" and isinstance(k.value, ast.Constant):
+                    ax = k.value.value
+            if last == "asarray":
+                return self.ty(a[0])
+            if last == "ones":
+                return "INVN"
+            if last == "sum":
+                t = self.ty(a[0])
+                if t in INVT:
+                    return "INVS" if ax is None else t
+                if t == "WROWS" and ax == 0:
+                    return "LOC"           # sum_i wn_i x_i with normalised weights: a point
+                if t == "PAIR" and ax == 1:
+                    return "INVN"
+                raise TypeErr(e, f"sum of {t} along axis {ax}")
+            if last == "dot":
+                l, r = self.ty(a[0]), self.ty(a[1])
+                if l == "DIFF_T" and r == "DIFF":
+                    return "COV"
+                raise TypeErr(e, f"dot({l}, {r})")
+            if last == "matrix_rank":
+                if self.ty(a[0]) == "COV" and len(a) == 1 and not e.keywords:
+                    return "INVS"          # rank is invariant under congruence (default numerical rank, reals)
+                raise TypeErr(e, "matrix_rank with a tolerance (or of a non-covariance): the rank test is no longer invariant")
+            if last == "inv":
+                if self.ty(a[0]) == "COV":
+                    return "ICOV"
+                raise TypeErr(e, "inv of a non-covariance")
+            if last in ("clip", "sqrt", "abs"):
+                t = self.ty(a[0])
+                if t in INVT:
+                    return t
+                raise TypeErr(e, f"{last} of {t}")
+            raise TypeErr(e, f"call of {d}: no affine-invariance contract")
+        raise TypeErr(e, f"expression {type(e).__name__}")
+
+    def err(self, node, msg):
+        raise TypeErr(node, msg)
+
+    def stmts(self, body):
+        for s in body:
+            if isinstance(s, ast.Expr) and isinstance(s.value, ast.Constant):
+                continue
+            if isinstance(s, ast.Assign):
+                t = self.ty(s.value)
+                tg = s.targets[0]
+                if isinstance(tg, ast.Name):
+                    if tg.id == "w" and t == "INVN" and isinstance(s.value, ast.BinOp) and isinstance(s.value.op, ast.Div) \
+                            and "np.sum(w)" in ast.unparse(s.value.right):
+                        self.env["__w_normalised__"] = True
+                    self.env[tg.id] = t
+                elif isinstance(tg, ast.Tuple) and t == "INVS":
+                    for x in tg.elts:
+                        self.env[x.id] = "INVS"
+                else:
+                    raise TypeErr(s, "assignment target")
+            elif isinstance(s, ast.If):
+                test = ast.unparse(s.test)
+                if "matrix_rank" in test:
+                    self.ty(s.test)
+                    continue            # rank-deficient arm: outside the metric's domain (not claimed)
+                if "is None" in test:
+                    self.stmts(s.body)
+                    continue
+                if self.ty(s.test) not in INVT:
+                    raise TypeErr(s, "branch on a non-invariant quantity")
+                for b in (s.body, s.orelse):
+                    if all(isinstance(x, ast.Return) and isinstance(x.value, ast.Constant) for x in b):
+                        continue
+                    self.stmts(b)
+            elif isinstance(s, ast.Try):
+                self.stmts(s.body)
+                for h in s.handlers:
+                    if not all(isinstance(x, ast.Return) and isinstance(x.value, ast.Constant) for x in h.body):
+                        raise TypeErr(s, "exception handler computes a value")
+            elif isinstance(s, ast.Return):
+                t = self.ty(s.value)
+                if t not in INVT:
+                    raise TypeErr(s, f"returns {t}")
+                if not self.env.get("__w_normalised__"):
+                    raise TypeErr(s, "weights are not normalised by their sum before use: the metric would depend on the weight scale")
+                self.returned = True
+            else:
+                raise TypeErr(s, f"statement {type(s).__name__}")
+
+
+def affine_typing(ctx):
+    f = eff.qualname_index(ctx.mods).get((TOOLS, "volume_variation"))
+    ctx.fuc(TOOLS, "volume_variation")
+    if f is None:
+        return
+    chk = Affine()
+    chk.env = {"x": "ROWS", "w": "INVN"}
+    status, detail, line = "discharged", "", None
+    try:
+        chk.stmts(f.body)
+        if not getattr(chk, "returned", False):
+            status, detail = "violated", "no typed return"
+    except TypeErr as e:
+        status, line = "violated", getattr(e.node, "lineno", None)
+        detail = f"line {line}: {e.msg}"
+    r = ctx.add(ObResult("C20/tools.volume_variation/affine-invariance-typing", status, "pyvc-eff", 0.0, 1, detail, kind="effect", line=line))
+    r.replayer = "c20_vol"
+
+
 def run(ctx):
-    pass
+    value_and_sign(ctx, True)
+    value_and_sign(ctx, False)
+    affine_typing(ctx)
+    ctx.trust("affine-invariance contracts of the primitives (true algebraic facts over the reals): weighted mean with normalised weights is "
+              "a point; centred rows transform with A; xc^T W xc is a congruence A^T S A; inv(A^T S A) = A^-1 S^-1 A^-T; "
+              "(r A) A^-1 S^-1 A^-T (r A)^T = r S^-1 r^T; rank is invariant under congruence",
+              "the rank-deficient arm (ridge 1e-6 trace(cov) I) is outside the claim: Mahalanobis distances are undefined there; on that "
+              "arm only result >= 0 is proved")
